@@ -124,6 +124,7 @@ def run(chk, repo, tier):
                       'Model.create and Model.replace must both canonicalise the parameter estimates',
                       witness='model.replace(parameters=...) with an invalid covariance block keeps it')
     run_more(chk, repo, mc)
+    run_v6(chk, repo)
 
 
 def run_more(chk, repo, mc):
@@ -204,3 +205,36 @@ def run_more(chk, repo, mc):
                               'covariance structure', line=r.line, path=cfg.describe(p or [])[-8:],
                               witness='model.replace(random_variables=joint block) on parameters whose values are '
                                       'indefinite for the new block: the model keeps an invalid covariance matrix')
+
+
+def run_v6(chk, repo):
+    """per-distribution counts use the per-distribution list"""
+    V6 = chk.rule('V6', 'unjoin: how many variables stay in a block is computed from the names found in that block, not from the '
+                        'whole request', floor=1)
+    rv = repo.cls('pharmpy.model.random_variables.RandomVariables')
+    f = rv.methods.get('unjoin')
+    if f is None:
+        raise AnalysisError('RandomVariables.unjoin not found')
+    loop = next((L for L in walk_no_nested(f.node) if isinstance(L, ast.For) and 'self._dists' in unparse(L.iter)), None)
+    if loop is None:
+        raise AnalysisError('V6: loop over the distributions not found')
+    dvar = unparse(loop.target)
+    local = {t.id for n in ast.walk(loop) if isinstance(n, ast.Assign) for t in n.targets if isinstance(t, ast.Name)}
+    n = 0
+    for cmp_ in [c for c in ast.walk(loop) if isinstance(c, ast.Compare)]:
+        for b in [x for x in ast.walk(cmp_.left) if isinstance(x, ast.BinOp) and isinstance(x.op, ast.Sub)]:
+            if not (isinstance(b.left, ast.Call) and dotted(b.left.func) == 'len' and unparse(b.left.args[0]) == dvar
+                    and isinstance(b.right, ast.Call) and dotted(b.right.func) == 'len'):
+                continue
+            n += 1
+            arg = b.right.args[0]
+            ok = isinstance(arg, ast.Name) and arg.id in local
+            chk.instance(V6, f'unjoin: `{unparse(cmp_)}` subtracts a per-block list: {ok}')
+            if not ok:
+                chk.violation(V6, rv.module.rel, f.qualname, unparse(cmp_),
+                              f'`{unparse(arg)}` is the whole request; names that belong to other distributions are counted as '
+                              f'removed from this block', line=cmp_.lineno,
+                              witness='a block of three, one of its names plus one name of another distribution: the block '
+                                      'collapses to a single variable and the other kept variable vanishes')
+    if n == 0:
+        raise AnalysisError('V6: count of remaining variables not found in unjoin')
